@@ -26,6 +26,35 @@ func (c08) MinNontrivial(tier string) int { return tierN(tier, 500, 5000) }
 func (p c08) Run(c *core.Ctx) {
 	g := RandomPopulation(c.Rng, PopOpts{MinP: 4, MaxP: 20, Types: world.TypesAll, PUnnamed: 0.35})
 	mix := TagMix{ByType: 3, ByName: 0.5, ByNameAbsent: 0.8, Func: 0.3, PQualifier: 0.55, POptional: 0.5}
+	if c.Rng.Intn(3) == 0 {
+		// names that invite confusion: a component that names itself exactly like its type would be named by
+		// default (it still carries a name of its own), and components that declare no qualifier but are NAMED like
+		// a qualifier word some point asks for (a name is no qualifier)
+		used := map[string]bool{}
+		for i := range g.Sc.Nodes {
+			used[g.Sc.Nodes[i].DisplayName()] = true
+		}
+		for i := range g.Sc.Nodes {
+			ns := &g.Sc.Nodes[i]
+			if ns.Name == "" {
+				continue
+			}
+			switch c.Rng.Intn(5) {
+			case 0:
+				if dn := world.Palette[ns.Type].DefaultName; !used[dn] {
+					delete(used, ns.Name)
+					ns.Name, used[dn] = dn, true
+					c.Count("components_named_like_their_type", 1)
+				}
+			case 1:
+				if w := qualPool[c.Rng.Intn(len(qualPool))]; !world.Palette[ns.Type].Qualifier && !used[w] {
+					delete(used, ns.Name)
+					ns.Name, used[w] = w, true
+					c.Count("unqualified_components_named_like_a_qualifier", 1)
+				}
+			}
+		}
+	}
 	n := len(g.Sc.Nodes)
 	for x := 0; x < 1+c.Rng.Intn(3); x++ {
 		AddRandomPoints(g, c.Rng.Intn(n), 1, 5, mix, nil)
